@@ -42,7 +42,9 @@ MANIFEST = dict(
          "classes and the whole file system; independently every path the real receiver created or modified is "
          "tested for lying beneath the destination, which yields the escaping stream as replay.  Every run covers a "
          "fixed systematic part (every record type x field x malformation, one stream cut at every byte, every hostile / "
-         "near-hostile name, deep nesting, sizes around the transfer block, symbolic links already inside the destination).",
+         "near-hostile name, deep nesting, sizes around the transfer block, symbolic links already inside the destination, "
+         "and the receiver's environment as a script: st_blksize 0..1 MiB incl. 9216/12288/20480, reads fragmented or cut "
+         "short at every call index, read/write interrupted, open/fstat failing).",
     design_ref="DESIGN.md section 5 C11/C12, section 6 D13",
     note="Lean 4.33 kernel; axioms propext/Classical.choice/Quot.sound at most (audited per theorem every run); "
          "hand-written model tied to pcp_server.c by differential execution of the real source built from /repo's "
@@ -357,7 +359,7 @@ CORPUS = [
 
 # ---------------------------------------------------------------- systematic part of every quick run
 BAD_NUMS = [b"", b"x", b"7x", b"-1", b"+1", b" 1", b"1 ", b"0x10", b"1e3", b"2147483647", b"2147483648", b"4294967295",
-            b"4294967296", b"9223372036854775807", b"9223372036854775808", b"18446744073709551615",
+            b"4294967296", b"2147483649", b"4294967297", b"9223372036854775807", b"9223372036854775808", b"18446744073709551615",
             b"18446744073709551616", b"99999999999999999999999999"]
 BAD_MODES = [b"", b"644", b"06440", b"0648", b"064a", b"-644", b" 644", b"+644", b"0x1f", b"06 4", b"\xff644", b"7777",
              b"0000", b"4755", b"1777"]
@@ -517,9 +519,85 @@ def link_cases():
 
 
 # --------------------------------------------------------------------------------------- running
+def pat(n, k=7):
+    return bytes((i * k + i // 251) % 251 for i in range(n))
+
+
+def env_cases():
+    """The receiver's environment as a script (harness `sink ... ENV`), a fixed part of every run:
+    * st_blksize of the file being written: 0, 1, 512, 4096, BUFSIZ-1, BUFSIZ, BUFSIZ+1, 9216, 12288, 20480, 65536, 1 MiB
+      (ext4/xfs/tmpfs 4096, ZFS 512-byte steps, NFS/Lustre 64 KiB..1 MiB) x file sizes at and around the resulting
+      transfer buffer, with and without a write fault -- full model correspondence, bp->cnt = roundup(blksize, BUFSIZ);
+    * read(2) delivering at most 1, 2, 7, 4096, BUFSIZ-1 bytes at a time, and ONE short read at every read index of a rich
+      stream -- the result must be what it is with whole reads (full model correspondence);
+    * read(2) interrupted (EINTR, once) at every read index of that stream, and followed by end of input -- oracle only:
+      no crash, no sanitizer report, no hang, nothing outside DEST, and -- unless the receiver ended the copy or sent
+      an error record -- every file intact."""
+    B = pcp.BUFSIZ
+    cs = []
+    for blk in (0, 1, 512, 4096, B - 1, B, B + 1, 9216, 12288, 20480, 65536, 1 << 20):
+        eff = ((blk + B - 1) // B) * B or B
+        sizes = sorted(set(n for n in (blk + 1, eff - 1, eff, eff + 1, 2 * eff + 5, 3 * B + 1) if 0 < n <= 70000)) or [3 * B + 1]
+        if blk >= 65536:
+            sizes = [B + 1, 70000] if blk > 65536 else [65535, 65537]
+        for n in sizes:
+            d = pat(n)
+            cs.append(C(b"C0644 %d f\n" % n + d + b"\0" + AFTER, env="blk=%d" % blk))
+        n = 2 * eff + 5 if 2 * eff + 5 <= 70000 else 70000
+        d = pat(n, 11)
+        cs.append(C(b"C0644 %d big\n" % n + d + b"\0C0644 6 small\nhello\n\0", env="blk=%d" % blk, fsz=12000,
+                    files=[(b"big", n, d), (b"small", 6, b"hello\n")]))
+    d = pat(20000, 13)
+    rich = (b"T1234567890 0 1234567891 0\nD0750 0 nd\nT1234567892 0 1234567893 0\nC0640 20000 f1\n" + d + b"\0E\n"
+            b"C0644 3 old\nxyz\0")
+    for m in (1, 2, 7, 4096, B - 1):
+        cs.append(C(rich, p=1, env="rdmax=%d" % m))
+        cs.append(C(rich, p=1, fd=1, env="rdmax=%d" % m))
+    d9 = d[:9000]
+    plain = b"C0640 9000 f1\n" + d9 + b"\0C0644 3 g\nabc\0"
+    nreads = len(b"C0640 9000 f1\n") + 2 + 1 + len(b"C0644 3 g\n") + 1 + 1 + 1
+    for k in range(nreads + 1):
+        cs.append(C(plain, env="short=%d:1" % k))
+        cs.append(C(plain, env="eintr=%d" % k, oracle_only=True, files=[(b"f1", 9000, d9), (b"g", 3, b"abc")]))
+    # write(2) -- file data and replies, one counter -- interrupted or short at every call index; the K-th open(2) failing
+    # (EMFILE); fstat(2) failing: oracle only
+    two = b"C0640 9000 f1\n" + d9 + b"\0C0644 8300 g\n" + d[:8300] + b"\0C0644 3 h\nabc\0"
+    tf = [(b"f1", 9000, d9), (b"g", 8300, d[:8300]), (b"h", 3, b"abc")]
+    for k in range(14):
+        cs.append(C(two, env="wr=%d:e" % k, oracle_only=True, files=tf))
+        cs.append(C(two, env="wr=%d:s" % k, oracle_only=True, files=tf))
+    for k in range(3):
+        cs.append(C(two, env="open=%d" % k, oracle_only=True, files=tf))
+    cs.append(C(two, env="fstat=fail", oracle_only=True, files=tf))
+    for k in (15, 16, 17):
+        # interrupted inside the data of a file the peer then stops sending
+        cs.append(C(b"C0640 20000 f1\n" + d[:9000], env="eintr=%d" % k, oracle_only=True))
+        cs.append(C(b"C0640 20000 f1\n" + d[:9000], fd=1, env="eintr=%d" % k, oracle_only=True))
+    return cs
+
+
 def op_line(jail, c):
-    return "sink %s /%s %s %d %d %o %d %d %s" % (jail, CWD.decode(), hx(c["dest"]), c["p"], c["y"], c["um"], c["fd"],
-                                                 c.get("fsz", 0), hx(c["stream"]))
+    return "sink %s /%s %s %d %d %o %d %d %s%s" % (jail, CWD.decode(), hx(c["dest"]), c["p"], c["y"], c["um"], c["fd"],
+                                                   c.get("fsz", 0), hx(c["stream"]),
+                                                   " " + c["env"] if c.get("env") else "")
+
+
+def env_of(c):
+    return dict(kv.split("=", 1) for kv in c["env"].split(",")) if c.get("env") else {}
+
+
+def cnt_of(c, cnt):
+    """bp->cnt as `_allocbuf` computes it from the st_blksize the (scripted) file system reports: rounded UP to a
+    multiple of BUFSIZ, BUFSIZ when it is 0 -- the write loop of `_sink` flushes only when `count == bp->cnt`, which is
+    reached only by a multiple of BUFSIZ (Props/C12 `reader_in_bounds`, hypothesis `CntOk`)"""
+    e = env_of(c)
+    if "blk" not in e:
+        return cnt
+    b = int(e["blk"])
+    return CNT_BY_BLK.get(b, ((b + pcp.BUFSIZ - 1) // pcp.BUFSIZ) * pcp.BUFSIZ or pcp.BUFSIZ)   # Pcp/Allocbuf.lean `allocSize` (`pdshmodel pcp cnt N`), filled in by run()
+
+
+CNT_BY_BLK = {}
 
 
 def model_line(c, ents, cnt, var):
@@ -535,21 +613,26 @@ def model_line(c, ents, cnt, var):
             # lstat/O_NOFOLLOW: a link is something in the way -- of a directory record like a file, of a file record
             # like a directory
             toks.append(Ent(e.path, c.get("link_block", "f"), 0o777, e.mtime, b"").token())
-    return "%s %d %d %o %d %d %d %d %s %s %s %s" % (op, c["p"], c["y"], c["um"], cnt, var["rule"], var["dch"],
+    return "%s %d %d %o %d %d %d %d %s %s %s %s" % (op, c["p"], c["y"], c["um"], cnt_of(c, cnt), var["rule"], var["dch"],
                                                     c.get("fsz", 0), hx(CWD), hx(c["dest"]), hx(c["stream"]), " ".join(toks))
 
 
 _CAND = re.compile(rb"[CD][0-7]{4} \d* ([^\n\0]*)")
 
 
-def escape_signature(stream, c=None):
+def escape_signature(stream, c=None, escaped=None):
     """narrow class of the D13 finding: the stream contains a control record whose name has a `/` or is `..`;
-    of F12-SYMLINK-FOLLOW: every received name is plain, and a symbolic link was waiting inside the destination"""
-    for m in _CAND.finditer(stream):
-        if pcp.hostile_name(m.group(1)):
+    of F12-SYMLINK-FOLLOW: every received name is plain, a symbolic link was waiting inside the destination, one of the
+    received names IS that link's name, and (when the escaped paths are known) every one of them is the link's target
+    or lies beneath it -- an escape anywhere else, also in a case with links, is `escape:other`"""
+    names = [m.group(1) for m in _CAND.finditer(stream)]
+    for n in names:
+        if pcp.hostile_name(n):
             return "escape:received-name-with-slash-or-dotdot"
     if c is not None and c.get("links"):
-        return "escape:through-symlink-inside-destination"
+        met = [link_target_canon(path, target) for path, target in c["links"] if path.rsplit(b"/", 1)[-1] in names]
+        if met and (escaped is None or all(any(t == b"" or e == t or e.startswith(t + b"/") for t in met) for e in escaped)):
+            return "escape:through-symlink-inside-destination"
     return "escape:other"
 
 
@@ -567,6 +650,9 @@ def case_json(c):
     if c.get("links"):
         return dict(_case_json(c), links=[[a.decode("latin-1"), b.decode("latin-1")] for a, b in c["links"]],
                     oracle_only=bool(c.get("oracle_only")), link_block=c.get("link_block", "f"))
+    if c.get("env"):
+        return dict(_case_json(c), environment=c["env"], oracle_only=bool(c.get("oracle_only")),
+                    files_hex=[[n.decode("latin-1"), sz, d.hex()] for n, sz, d in c["files"]] if c.get("files") else None)
     return _case_json(c)
 
 
@@ -591,8 +677,9 @@ def run_cases(ctx, exe, cases, cnt, var, cov, dist, distinct, tag="pcp_server()"
         jails.append(j)
         ents_l.append(ents)
     t0 = int(time.time())
+    ctx.log("%d jails built" % len(cases))
     env = dict(os.environ, ASAN_OPTIONS="detect_leaks=0")
-    impl = run_batch([exe], [[op_line(j, c)] for j, c in zip(jails, cases)], timeout=1800, env=env)
+    impl = pcp.par_batch([exe], [[op_line(j, c)] for j, c in zip(jails, cases)], timeout=1800, env=env)
 
     def rerun(idx):
         for k in idx:
@@ -605,10 +692,12 @@ def run_cases(ctx, exe, cases, cnt, var, cov, dist, distinct, tag="pcp_server()"
     nre = pcp.retry_timeouts(impl, lambda a: sig_of(a) in ("998", "999"), lambda a: sig_of(a) == "997", rerun)
     if nre:
         dist["timeouts_retried"] = dist.get("timeouts_retried", 0) + nre
-    mlines = ctx.model("pcp", "".join(model_line(c, e, cnt, var) + "\n" for c, e in zip(cases, ents_l)))
+    ctx.log("real receiver runs done")
+    mlines = pcp.par_model(ctx, "pcp", [model_line(c, e, cnt, var) for c, e in zip(cases, ents_l)])
+    ctx.log("model runs done")
     judge(ctx, cases, jails, ents_l, [a[0] if a else "" for a, _ in impl], [cr for _, cr in impl], mlines, t0,
           cov, dist, distinct, tag, shrinker=lambda c, sig: shrink(ctx, exe, c, sig))
-    shutil.rmtree(base, ignore_errors=True)
+    pcp.rm_bg(base)
 
 
 def fault_oracle(c, replies, snap):
@@ -710,7 +799,8 @@ def judge(ctx, cases, jails, ents_l, answers, crashes, mlines, t0, cov, dist, di
         dcanon = pcp.lexnorm(CWD, c["dest"])
         spec_lines.append("spec12 %s %s" % (hx(dcanon), " ".join(hx(p) for p in ch)))
         spec_lines.append("norm %s %s" % (hx(CWD), hx(c["dest"])))
-    slines = ctx.model("pcp", "".join(l + "\n" for l in spec_lines))
+    slines = pcp.par_model(ctx, "pcp", spec_lines)
+    ctx.log("snapshots taken, specification evaluated (%s)" % tag)
     for k, c in enumerate(cases):
         cov["evaluations"] += 1
         f = pcp.fields(answers[k])
@@ -753,7 +843,7 @@ def judge(ctx, cases, jails, ents_l, answers, crashes, mlines, t0, cov, dist, di
             esc = [pcp.unhx(x).decode("latin-1") for x in sp.split()[1].split(",")]
             cj["escaped_paths"] = esc[:10]
             cj["destination_canonical"] = "/" + dcanon.decode("latin-1")
-            esig = escape_signature(c["stream"], c)
+            esig = escape_signature(c["stream"], c, [pcp.unhx(x) for x in sp.split()[1].split(",")])
             ctx.offender(esig, "the receiver created or modified %s outside its destination /%s" %
                          (", ".join("/" + e for e in esc[:4]), dcanon.decode("latin-1")),
                          dict(small(c, esig), receiver=tag, escaped_paths=esc[:10],
@@ -771,6 +861,18 @@ def judge(ctx, cases, jails, ents_l, answers, crashes, mlines, t0, cov, dist, di
             dist["write_fault_cases"] = dist.get("write_fault_cases", 0) + 1
             for fsig, fwhat in fault_oracle(c, replies, snaps[k]):
                 ctx.offender(fsig, fwhat, cj)
+        # an interrupted read may END the copy (the receiver of the code as found treats any failed read as the end of its
+        # input: the sender then misses a reply and knows), it must not be PAPERED OVER: when every record and every file
+        # was acknowledged and no error record sent, every file must be what was sent
+        if c.get("env") and c.get("oracle_only") and c.get("files") and not any(r.startswith("E:") for r in replies) \
+                and len(replies) >= 1 + 2 * len(c["files"]):
+            for nm, n, data in c["files"]:
+                r = snaps[k].get(b"o/w/dest/" + nm)
+                if r is None or r["kind"] != "f" or r["data"] != data:
+                    ctx.offender("syscall-fault:silent-damage", "a system call of the receiver failed or was cut short (%s); "
+                                 "everything was acknowledged, no error record was sent, yet %r is not what was sent" %
+                                 (c["env"], nm), cj)
+                    break
         if any(not (r == "A" or r.startswith("E:")) for r in replies) or "E:unterminated" in replies:
             ctx.offender("reply-garbled", "the reply stream is not a sequence of acknowledgements and error records: %s"
                          % ",".join(replies[:20]), cj)
@@ -929,7 +1031,7 @@ def run_binary(ctx, cases, cnt, var, cov, dist, distinct):
                 break
     keep = [i for i, a in enumerate(answers) if a is not None]
     use, jails, ents_l, answers, crashes = ([x[i] for i in keep] for x in (use, jails, ents_l, answers, crashes))
-    mlines = ctx.model("pcp", "".join(model_line(c, e, cnt, var) + "\n" for c, e in zip(use, ents_l)))
+    mlines = pcp.par_model(ctx, "pcp", [model_line(c, e, cnt, var) for c, e in zip(use, ents_l)])
     dist["binary_cases"] = dist.get("binary_cases", 0) + len(use)
     judge(ctx, use, jails, ents_l, answers, crashes, mlines, t0, cov, dist, distinct, "pdcp -z (scratch build)")
     shutil.rmtree(base, ignore_errors=True)
@@ -954,7 +1056,8 @@ def run(ctx):
                    "the receiver under a file size limit (write faults in the middle of multi-block files, followed by "
                    "files that fit); symbolic links that already exist inside the destination (to a directory, a file, "
                    "nothing, an ancestor; relative and absolute) met by plain received names; a fixed systematic part in every "
-                   "run (see `systematic`); jail around the "
+                   "run (see `systematic`, `env_cases`: scripted st_blksize, fragmented/short/interrupted reads, interrupted/"
+                   "short writes, failing open/fstat at every call index); jail around the "
                    "destination holds victim files/dirs.  non-trivial = the stream starts with >= 1 syntactically "
                    "valid control record; distinct = distinct (stream, dest, options)"}
     dist = {"reply_classes": {}, "escapes": 0, "malformed": 0, "crash": 0, "model_mismatch": 0}
@@ -971,7 +1074,13 @@ def run(ctx):
         dist["systematic_cases"] = len(sysc)
         lc = link_cases()
         dist["symlink_cases_pinned"] = len(lc)
-        cases = list(CORPUS) + sysc + lc
+        ec = env_cases()
+        blks = sorted(set(int(env_of(c)["blk"]) for c in ec if "blk" in env_of(c)))
+        for b, a in zip(blks, ctx.model("pcp", "".join("cnt %d\n" % b for b in blks))):
+            CNT_BY_BLK[b] = int(a)
+        dist["bp_cnt_by_st_blksize"] = {str(b): CNT_BY_BLK[b] for b in blks}
+        dist["environment_cases_pinned"] = len(ec)
+        cases = list(CORPUS) + sysc + lc + ec
         if ctx.replay:
             import json
             rc = json.load(open(ctx.replay)).get("case", {})
@@ -981,7 +1090,10 @@ def run(ctx):
                                   prepop=rc["prepopulated"], destmode=int(rc["destmode"], 8),
                                   fsz=rc.get("file_size_limit", 0), bigold=rc.get("bigold", False),
                                   links=[(a.encode("latin-1"), b.encode("latin-1")) for a, b in rc["links"]] if rc.get("links") else None,
-                                  oracle_only=rc.get("oracle_only", False), link_block=rc.get("link_block", "f")))
+                                  oracle_only=rc.get("oracle_only", False), link_block=rc.get("link_block", "f"),
+                                  env=rc.get("environment"),
+                                  files=[(a.encode("latin-1"), n, bytes.fromhex(h)) for a, n, h in rc["files_hex"]]
+                                  if rc.get("files_hex") else None))
         cases += [gen_case(rng) for _ in range(n)]
         import random
         rng2 = random.Random(ctx.seed * 7919 + 12)       # own stream: the cases above stay what they were
@@ -1006,7 +1118,8 @@ def run(ctx):
                      "(RLIMIT_FSIZE with SIGXFSZ ignored: short write / EFBIG, ftruncate EFBIG)",
                      "Linux path resolution, mkdir/open(O_CREAT)/chmod/utimes/ftruncate semantics as in Pcp/FS.lean",
                      "nothing else modifies the file system during the copy",
-                     "st_blksize of the destination file system rounds up to bp->cnt, a multiple of BUFSIZ"],
+                     "st_blksize of the destination file system: any value (Pcp/Allocbuf.lean; scripted 0..1 MiB in every run); "
+                     "system calls that fail or are cut short are outside the model (injected at every call index, oracle only)"],
         trusted_base=["Lean 4.33 kernel", "axioms: propext, Classical.choice, Quot.sound at most (audited per theorem)",
                       "hand-written receiver model Pcp/Sink.lean + file-system model Pcp/FS.lean tied to pcp_server.c and "
                       "the kernel by differential execution", "Gen/Pcp.lean regenerated from /repo (BUFSIZ, NAME_MAX, "
